@@ -171,12 +171,11 @@ impl Thread {
         thread.insert("callstack".to_owned(), serde_json::Value::Array(cs_array));
         thread.insert("threadIndex".to_owned(), json!(self.thread_index));
 
-        if !self.previous_pointer.is_null() {
+        // A previous pointer that no longer resolves to content is simply not recorded.
+        if let Some(previous_content) = self.previous_pointer.resolve() {
             thread.insert(
                 "previousContentObject".to_owned(),
-                json!(
-                    Object::get_path(self.previous_pointer.resolve().unwrap().as_ref()).to_string()
-                ),
+                json!(Object::get_path(previous_content.as_ref()).to_string()),
             );
         }
 
@@ -245,7 +244,7 @@ impl CallStack {
 
     pub fn push_thread(&mut self) {
         let mut new_thread = self.get_current_thread().clone();
-        self.thread_counter += 1;
+        self.thread_counter = self.thread_counter.wrapping_add(1);
         new_thread.thread_index = self.thread_counter;
         self.threads.push(new_thread);
     }
@@ -312,7 +311,7 @@ impl CallStack {
 
     pub fn fork_thread(&mut self) -> Thread {
         let mut forked_thread = self.get_current_thread().clone();
-        self.thread_counter += 1;
+        self.thread_counter = self.thread_counter.wrapping_add(1);
         forked_thread.thread_index = self.thread_counter;
         forked_thread
     }
@@ -331,7 +330,12 @@ impl CallStack {
         let context_element = self
             .get_callstack_mut()
             .get_mut((context_index - 1) as usize)
-            .unwrap();
+            .ok_or_else(|| {
+                StoryError::InvalidStoryState(format!(
+                    "Could not find the callstack element of temporary variable: {}",
+                    name
+                ))
+            })?;
 
         if !declare_new && !context_element.temporary_variables.contains_key(&name) {
             return Err(StoryError::InvalidStoryState(format!(
@@ -379,7 +383,7 @@ impl CallStack {
         }
 
         let context_element = self.get_callstack().get((context_index - 1) as usize);
-        let var_value = context_element.unwrap().temporary_variables.get(name);
+        let var_value = context_element.and_then(|el| el.temporary_variables.get(name));
 
         var_value.cloned()
     }
